@@ -264,7 +264,9 @@ def cmp_num(op, a, b):
 class Program:
     """Loaded source: modules -> ast, classes, functions.  Re-read from the working tree on every run."""
 
-    def __init__(self, root='/repo'):
+    def __init__(self, root=None):
+        import os
+        root = root or os.environ.get('VERIF_REPO', '/repo')
         self.root = root
         self.modules = {}      # modname -> ast.Module
         self.src = {}          # modname -> source text
@@ -282,6 +284,15 @@ class Program:
         self.modules[modname] = tree
         self.src[modname] = (path, text)
         self.funcs[modname] = {}
+        self.imports = getattr(self, 'imports', {})
+        self.imports[modname] = {}
+        pkg = modname.split('.')
+        for n in ast.walk(tree):
+            if isinstance(n, ast.ImportFrom) and n.module is not None or isinstance(n, ast.ImportFrom):
+                base = pkg[:len(pkg) - n.level] if n.level else []
+                src = '.'.join(base + (n.module.split('.') if n.module else []))
+                for a in n.names:
+                    self.imports[modname][a.asname or a.name] = (src, a.name)
         for n in tree.body:
             if isinstance(n, ast.ClassDef):
                 self.classes[n.name] = (n, modname)
@@ -388,6 +399,20 @@ class Interp:
             return FuncVal(self.prog.funcs[mod][e.id], mod)
         if e.id in self.prog.classes:
             return ClassVal(e.id)
+        imp = self.prog.imports.get(mod, {}).get(e.id) if mod else None
+        if imp and imp[0].startswith('leuvenmapmatching'):
+            try:
+                self.prog.load(imp[0])
+                if imp[1] in self.prog.funcs.get(imp[0], {}):
+                    return FuncVal(self.prog.funcs[imp[0]][imp[1]], imp[0])
+                if imp[1] in self.prog.classes:
+                    return ClassVal(imp[1])
+                # `from ..util import dist_latlon as dist_lib`: a sub-module
+                sub = imp[0] + '.' + imp[1]
+                self.prog.load(sub)
+                return ('pymodule', sub)
+            except (OSError, KeyError):
+                pass
         raise Unsupported(f"unknown name {e.id!r} at line {e.lineno}")
 
     def e_JoinedStr(self, e, env):
@@ -418,6 +443,8 @@ class Interp:
         return ('lambda', e, env)
 
     def getattr(self, o, attr):
+        if ('getattr', type(o).__name__) in self.hooks:
+            return self.hooks[('getattr', type(o).__name__)](self, o, attr)
         if isinstance(o, Obj):
             if attr == '__class__':
                 return ClassVal(o.cls)
@@ -708,6 +735,8 @@ class Interp:
         it = self.ev(g.iter, env)
         if isinstance(it, ast.AST):
             raise Unsupported("comprehension iter")
+        if ('comprehension', type(it).__name__) in self.hooks:
+            return self.hooks[('comprehension', type(it).__name__)](self, it, g, e, env, kind)
         conc = self.concrete_iter(it)
         if conc is not None:
             out = []
@@ -1061,6 +1090,8 @@ class Interp:
         raise Unsupported(f"nested function {st.name}")
 
     def setattr(self, o, attr, v):
+        if ('setattr', type(o).__name__) in self.hooks:
+            return self.hooks[('setattr', type(o).__name__)](self, o, attr, v)
         if isinstance(o, Obj):
             if o.cls in self.prog.classes:
                 r = self.prog.find_member(o.cls, attr, kinds=('setter',))
@@ -1300,6 +1331,8 @@ class Interp:
                 env[n] = self.havoc_like(env[n], n)
         if spec and spec.get('havoc'):
             spec['havoc'](self, env, pre_env)
+        if mode == 1 and spec and spec.get('havoc_exit'):
+            spec['havoc_exit'](self, env, pre_env, it)
         if spec and spec.get('inv'):
             for nm, g in spec['inv'](self, env):
                 ctx.assume(g)
